@@ -70,7 +70,7 @@ def main():
         traceback.print_exc()
         res.mismatch("harness", "exception while driving the implementation", repr(e), "", note=traceback.format_exc()[-1500:])
 
-    known = C.load_known()
+    known = C.load_known(prop)
     kfind = [k for k in known.get("findings", []) if k["property"] == prop]
 
     def known_match(v):
